@@ -559,3 +559,33 @@ Proof.
     apply C_token. unfold sc.
     exists ws, c0, r. cbn [sc_text sc_pos sc_lineno]. repeat split; auto using nonspace_not_lb; lia.
 Qed.
+
+(* ---------------------------------------------------------------------------------- *)
+(* messages are concatenated, never formatted over *)
+
+Lemma err_str_concat e : err_str e = kind_prefix (e_kind e) ++ e_msg e.
+Proof.
+  unfold err_str, kind_prefix. destruct (e_kind e) as [|etype lineno|lineno].
+  - reflexivity.
+  - now rewrite <- !app_assoc.
+  - destruct lineno as [n|]; [|reflexivity]. destruct (n =? 0)%Z; [reflexivity|now rewrite <- !app_assoc].
+Qed.
+
+(* changing the message changes str(error) at exactly that place: whatever characters the message
+   contains, the rest of the text is the same *)
+Lemma err_str_message_inert id id' m m' fn fn' k c c' :
+  exists pre, err_str (mkErr id m fn k c) = pre ++ m /\ err_str (mkErr id' m' fn' k c') = pre ++ m'.
+Proof. exists (kind_prefix k). split; apply err_str_concat. Qed.
+
+(* the rendering of a well-formed error contains prefix + class prefix + the message, verbatim *)
+Lemma format_error_message_verbatim e p :
+  wf_err e -> exists s, format_error e p = Ok s /\ infix (p ++ kind_prefix (e_kind e) ++ e_msg e) s.
+Proof.
+  intros H. destruct (format_error_total e p H) as (s & l & H1 & _ & H3 & _).
+  exists s. split; [exact H1|]. now rewrite <- err_str_concat.
+Qed.
+
+(* the description of a TokenRequired is concatenated too *)
+Lemma token_required_message id desc p : e_msg (new_token_required id desc p) = desc ++ k_expected
+  /\ forall start, e_msg (new_token_required_bib id desc p start) = desc ++ k_expected.
+Proof. split; reflexivity. Qed.
